@@ -85,6 +85,10 @@ Definition font_size (e : env) (parent : option Q) (value : fsval) : option Q :=
 Definition root_font_size_for (is_root : bool) (document_root_fs : Q) : Q :=
   if is_root then initial_font_size else document_root_fs.
 
+(* the env set_computed_styles + ComputedStyle give to the computer functions of an element *)
+Definition element_env (is_root : bool) (own document_root_fs exr chr : Q) : env :=
+  {| own_fs := own; root_fs := root_font_size_for is_root document_root_fs; ex_ratio := exr; ch_ratio := chr |}.
+
 (* ---- font-weight *)
 Open Scope Z_scope.
 Inductive fwval := WNormal | WBold | WBolder | WLighter | WNum (n : Z).
